@@ -1201,6 +1201,12 @@ def check_C20(sc, v, tier, seed, replay):
         t3 = os.path.join(sc.work, "tight%d.ndjson" % gcount)
         sc.run("rec-conc", ["-seed", seed, "-out", t3, "-stress", gcount, "-rounds", 1000 + iters], env=env, timeout=1800)
         evs += open(t3).read().splitlines()
+    # the same on one processor (GOMAXPROCS=1): goroutines are still preempted in the middle of a call, and whatever serialises them on
+    # many processors has to serialise them there too
+    for gcount, iters in ([(16, 120)] if tier == "quick" else [(16, 600), (5, 1500)]):
+        t4 = os.path.join(sc.work, "onep%d.ndjson" % gcount)
+        sc.run("rec-conc", ["-seed", seed, "-out", t4, "-stress", gcount, "-rounds", 1000 + iters], env=dict(env, GOMAXPROCS="1"), timeout=1800)
+        evs += open(t4).read().splitlines()
     import glob
     races = 0
     where = set()
